@@ -43,7 +43,8 @@ theorem self_mem_preorderF (tr : Tree) (n c : Nat) : c ∈ tr.preorderF n c := b
   cases n <;> simp [Tree.preorderF]
 
 /-- no class of the tree has a subclass in it: the tree is the root alone -/
-theorem unionClasses_of_not_anyParent {tr : Tree} (h : tr.anyParent = false) : tr.unionClasses = [0] := by
+theorem unionClasses_of_not_anyParent {tr : Tree} (hind : tr.indirect = []) (h : tr.anyParent = false) :
+    tr.unionClasses = [0] := by
   unfold Tree.unionClasses
   cases hs : tr.size with
   | zero => rfl
@@ -62,12 +63,14 @@ theorem unionClasses_of_not_anyParent {tr : Tree} (h : tr.anyParent = false) : t
         unfold Tree.hasSubclasses
         rw [List.any_eq_true]
         refine ⟨c, by rw [hc]; simp, ?_⟩
-        simp only [List.contains_eq_mem, decide_eq_true_eq]
-        unfold Tree.unionClasses
-        rw [hs]
-        simp only [Tree.preorderF, hc, List.flatMap_cons, List.mem_cons, List.mem_append]
-        right; left
-        exact self_mem_preorderF tr n c
+        rw [hind]
+        have hmem : c ∈ tr.unionClasses := by
+          unfold Tree.unionClasses
+          rw [hs]
+          simp only [Tree.preorderF, hc, List.flatMap_cons, List.mem_cons, List.mem_append]
+          right; left
+          exact self_mem_preorderF tr n c
+        simpa using hmem
     simp [Tree.preorderF, hch]
 
 /-! ## Part B — the automatic strategy -/
@@ -310,39 +313,137 @@ theorem unUnion_tagged (tr : Tree) (us : UStrat) (forbid : Bool) (Hk : Tagged.Ho
   rw [if_pos hany]
   exact C13_unstructure (fullTU tr us forbid) Hk x D kvs hx hD hun hfresh
 
-/-- coming in, class with subclasses: the tag selects `D`'s own hook, which sees its own dict -/
-theorem stUnion_inner (tr : Tree) (us : UStrat) (forbid : Bool) (Hk : Tagged.Hooks) (hok : TreeOKUnion tr us)
-    (hany : tr.anyParent = true) (K D : Nat) (hDK : D ∈ tr.subclassesOf K)
-    (hinner : 1 < (tr.subclassesOf K).length) (kvs : List (Obj × Obj))
-    (hfresh : dlookup kvs (.str us.tagName) = Option.none)
-    (hign : forbid = false → Hk.st D (.dict (kvs ++ [(.str us.tagName, us.tag D)])) = Hk.st D (.dict kvs)) :
-    stUnion tr us forbid Hk K (.dict (kvs ++ [(.str us.tagName, us.tag D)])) = Hk.st D (.dict kvs) := by
-  unfold stUnion
-  rw [hany]
-  simp only [Bool.true_and, decide_eq_true_eq]
-  rw [if_pos hinner]
+/-- what the union hook registered for class `c` has to do with the tagged form of a member's dict -/
+def GoodSh (tr : Tree) (us : UStrat) (forbid : Bool) (Hk : Tagged.Hooks) (h : Obj → Option Obj) (c : Nat) : Prop :=
+  ∀ D ∈ tr.subclassesOf c, ∀ kvs : List (Obj × Obj), dlookup kvs (.str us.tagName) = Option.none →
+    (forbid = false → Hk.st D (.dict (kvs ++ [(.str us.tagName, us.tag D)])) = Hk.st D (.dict kvs)) →
+    h (.dict (kvs ++ [(.str us.tagName, us.tag D)])) = Hk.st D (.dict kvs)
+
+/-- the union hook built for `cl` while every member of its sub-union still has its own hook: the tag selects `D`'s own
+hook, which sees its own dict -/
+theorem sh_good (tr : Tree) (us : UStrat) (forbid : Bool) (Hk : Tagged.Hooks) (hok : TreeOKUnion tr us)
+    (cur : Nat → Obj → Option Obj) (cl : Nat) (hcur : ∀ D ∈ tr.subclassesOf cl, cur D = Hk.st D) :
+    GoodSh tr us forbid Hk (fun p => Tagged.tagSt (subTU tr us forbid cl) { un := Hk.un, st := cur } p) cl := by
+  intro D hDK kvs hfresh hign
   have hDu := (mem_subclassesOf.mp hDK).1
-  have hfresh' : dlookup kvs (subTU tr us forbid K).key = Option.none := hfresh
-  have := C13_roundtrip_general (subTU tr us forbid K) Hk (injectiveOn_subclassesOf hok.inj K)
-    (kvs ++ [((subTU tr us forbid K).key, us.tag D)]) (us.tag D) D hDK
+  have hfresh' : dlookup kvs (subTU tr us forbid cl).key = Option.none := hfresh
+  have := C13_roundtrip_general (subTU tr us forbid cl) { un := Hk.un, st := cur } (injectiveOn_subclassesOf hok.inj cl)
+    (kvs ++ [((subTU tr us forbid cl).key, us.tag D)]) (us.tag D) D hDK
     (Tagged.dlookup_append_fresh hfresh' _) (hok.hashable D hDu) (Obj.pyEq_refl _)
-  show Tagged.tagSt (subTU tr us forbid K) Hk (.dict (kvs ++ [((subTU tr us forbid K).key, us.tag D)])) = _
+  show Tagged.tagSt (subTU tr us forbid cl) { un := Hk.un, st := cur }
+    (.dict (kvs ++ [((subTU tr us forbid cl).key, us.tag D)])) = _
   rw [this]
+  show cur D _ = _
+  rw [hcur D hDK]
   cases forbid with
   | false =>
     show Hk.st D (.dict (kvs ++ [(.str us.tagName, us.tag D)])) = _
     exact hign rfl
   | true =>
-    show Hk.st D (.dict (dictDel (kvs ++ [((subTU tr us true K).key, us.tag D)]) (subTU tr us true K).key)) = _
+    show Hk.st D (.dict (dictDel (kvs ++ [((subTU tr us true cl).key, us.tag D)]) (subTU tr us true cl).key)) = _
     rw [Tagged.dictDel_append_fresh hfresh']
+
+/-- a class without subclasses is never given a union hook -/
+theorem secondPass_leaf (tr : Tree) (us : UStrat) (forbid : Bool) (Hk : Tagged.Hooks) (K : Nat)
+    (hleaf : ¬ 1 < (tr.subclassesOf K).length) :
+    ∀ (order : List Nat) (cur : Nat → Obj → Option Obj), secondPass tr us forbid Hk order cur K = cur K := by
+  intro order
+  induction order with
+  | nil => intro cur; rfl
+  | cons cl rest ih =>
+    intro cur
+    unfold secondPass
+    split
+    · rename_i hin
+      rw [ih]
+      have : K ≠ cl := fun e => hleaf (e ▸ hin)
+      simp [this]
+    · exact ih cur
+
+/-- invariant of the second pass under `OrderOKF`: classes that have not been given a union hook still have their own;
+every union hook given so far does the right thing -/
+theorem secondPass_inv (tr : Tree) (us : UStrat) (forbid : Bool) (Hk : Tagged.Hooks) (hok : TreeOKUnion tr us) :
+    ∀ (order done : List Nat) (cur : Nat → Obj → Option Obj), OrderOKF tr order done →
+      (∀ c, (c ∉ done ∨ ¬ 1 < (tr.subclassesOf c).length) → cur c = Hk.st c) →
+      (∀ c ∈ done, 1 < (tr.subclassesOf c).length → GoodSh tr us forbid Hk (cur c) c) →
+      ∀ c, (c ∈ done ∨ c ∈ order) → 1 < (tr.subclassesOf c).length →
+        GoodSh tr us forbid Hk (secondPass tr us forbid Hk order cur c) c := by
+  intro order
+  induction order with
+  | nil =>
+    intro done cur _ _ h2 c hc hin
+    rcases hc with hc | hc
+    · exact h2 c hc hin
+    · cases hc
+  | cons cl rest ih =>
+    intro done cur hord h1 h2 c hc hin
+    obtain ⟨hcl, hrest⟩ := hord
+    have hc' : c ∈ cl :: done ∨ c ∈ rest := by
+      rcases hc with hc | hc
+      · exact Or.inl (List.mem_cons_of_mem _ hc)
+      · rcases List.mem_cons.mp hc with e | hc
+        · exact Or.inl (e ▸ List.mem_cons_self)
+        · exact Or.inr hc
+    unfold secondPass
+    split
+    · rename_i hincl
+      refine ih (cl :: done) _ hrest ?_ ?_ c hc' hin
+      · intro d hd
+        by_cases e : d = cl
+        · subst e
+          rcases hd with hd | hd
+          · exact absurd List.mem_cons_self hd
+          · exact absurd hincl hd
+        · simp only [if_neg e]
+          apply h1
+          rcases hd with hd | hd
+          · exact Or.inl (fun h => hd (List.mem_cons_of_mem _ h))
+          · exact Or.inr hd
+      · intro d hd hind
+        by_cases e : d = cl
+        · subst e
+          simp only [if_true]
+          apply sh_good tr us forbid Hk hok cur d
+          intro D hD
+          apply h1
+          by_cases hDd : D ∈ done
+          · exact Or.inr (hcl D hDd hD)
+          · exact Or.inl hDd
+        · simp only [if_neg e]
+          rcases List.mem_cons.mp hd with e' | hd
+          · exact absurd e' e
+          · exact h2 d hd hind
+    · rename_i hincl
+      refine ih (cl :: done) cur hrest ?_ ?_ c hc' hin
+      · intro d hd
+        apply h1
+        rcases hd with hd | hd
+        · exact Or.inl (fun h => hd (List.mem_cons_of_mem _ h))
+        · exact Or.inr hd
+      · intro d hd hind
+        rcases List.mem_cons.mp hd with e | hd
+        · exact absurd (e ▸ hind) hincl
+        · exact h2 d hd hind
+
+/-- coming in, class with subclasses: the tag selects `D`'s own hook, which sees its own dict -/
+theorem stUnion_inner (tr : Tree) (us : UStrat) (forbid : Bool) (Hk : Tagged.Hooks) (hok : TreeOKUnion tr us)
+    (hord : OrderOK tr) (hany : tr.anyParent = true) (K D : Nat) (hK : K ∈ tr.unionClasses) (hDK : D ∈ tr.subclassesOf K)
+    (hinner : 1 < (tr.subclassesOf K).length) (kvs : List (Obj × Obj))
+    (hfresh : dlookup kvs (.str us.tagName) = Option.none)
+    (hign : forbid = false → Hk.st D (.dict (kvs ++ [(.str us.tagName, us.tag D)])) = Hk.st D (.dict kvs)) :
+    stUnion tr us forbid Hk K (.dict (kvs ++ [(.str us.tagName, us.tag D)])) = Hk.st D (.dict kvs) := by
+  unfold stUnion
+  rw [if_pos hany]
+  exact secondPass_inv tr us forbid Hk hok tr.classTuple [] Hk.st hord (fun _ _ => rfl)
+    (fun c hc => absurd hc (by simp)) K (Or.inr ((hok.tuple K).mpr hK)) hinner D hDK kvs hfresh hign
 
 /-- coming in, class without subclasses: its own hook, handed the tagged dict -/
 theorem stUnion_leaf (tr : Tree) (us : UStrat) (forbid : Bool) (Hk : Tagged.Hooks) (K : Nat)
     (hleaf : (tr.subclassesOf K).length ≤ 1) (p : Obj) : stUnion tr us forbid Hk K p = Hk.st K p := by
   unfold stUnion
-  have : decide (1 < (tr.subclassesOf K).length) = false := by simp; omega
-  rw [this, Bool.and_false]
-  simp
+  split
+  · rw [secondPass_leaf tr us forbid Hk K (by omega)]
+  · rfl
 
 /-! ## Part D — executable versions of the hypotheses -/
 
@@ -411,18 +512,70 @@ theorem injB_sound {tag : Nat → Obj} {cs : List Nat} (h : injB tag cs = true) 
   · exact h'
 
 def treeOKUnionB (tr : Tree) (us : UStrat) : Bool :=
-  injB us.tag tr.unionClasses && tr.unionClasses.all (fun c => Tagged.tagHashable (us.tag c))
+  injB us.tag tr.unionClasses && tr.unionClasses.all (fun c => Tagged.tagHashable (us.tag c)) &&
+  tr.dups.all (fun c => decide (1 < (tr.subclassesOf c).length)) &&
+  (tr.classTuple.all (fun c => tr.unionClasses.contains c) && tr.unionClasses.all (fun c => tr.classTuple.contains c))
 
 theorem treeOKUnionB_sound {tr : Tree} {us : UStrat} (h : treeOKUnionB tr us = true) : TreeOKUnion tr us := by
   unfold treeOKUnionB at h
-  simp only [Bool.and_eq_true, List.all_eq_true] at h
-  exact ⟨injB_sound h.1, h.2⟩
+  simp only [Bool.and_eq_true, List.all_eq_true, decide_eq_true_eq, List.contains_eq_mem] at h
+  exact ⟨injB_sound h.1.1.1, h.1.1.2, h.1.2, fun c => ⟨h.2.1 c, h.2.2 c⟩⟩
+
+def orderOKFB (tr : Tree) : List Nat → List Nat → Bool
+  | [], _ => true
+  | cl :: rest, done =>
+    done.all (fun c => !(tr.subclassesOf cl).contains c || !decide (1 < (tr.subclassesOf c).length)) &&
+    orderOKFB tr rest (cl :: done)
+
+theorem orderOKFB_sound (tr : Tree) : ∀ (order done : List Nat), orderOKFB tr order done = true → OrderOKF tr order done := by
+  intro order
+  induction order with
+  | nil => intro _ _; trivial
+  | cons cl rest ih =>
+    intro done h
+    simp only [orderOKFB, Bool.and_eq_true, List.all_eq_true, Bool.or_eq_true, Bool.not_eq_true',
+      List.contains_eq_mem, decide_eq_false_iff_not] at h
+    refine ⟨fun c hc hsub => ?_, ih _ h.2⟩
+    rcases h.1 c hc with h' | h'
+    · exact absurd hsub h'
+    · exact h'
+
+theorem orderOKFB_complete (tr : Tree) : ∀ (order done : List Nat), OrderOKF tr order done → orderOKFB tr order done = true := by
+  intro order
+  induction order with
+  | nil => intro _ _; rfl
+  | cons cl rest ih =>
+    intro done h
+    simp only [orderOKFB, Bool.and_eq_true, List.all_eq_true, Bool.or_eq_true, Bool.not_eq_true',
+      List.contains_eq_mem, decide_eq_false_iff_not]
+    refine ⟨fun c hc => ?_, ih _ h.2⟩
+    by_cases hsub : c ∈ tr.subclassesOf cl
+    · exact Or.inr (h.1 c hc hsub)
+    · exact Or.inl (by simpa using hsub)
+
+def orderOKB (tr : Tree) : Bool := orderOKFB tr tr.classTuple []
+
+theorem not_orderOK_of_B {tr : Tree} (h : orderOKB tr = false) : ¬ OrderOK tr := by
+  intro hok
+  have := orderOKFB_complete tr _ _ hok
+  unfold orderOKB at h
+  rw [this] at h
+  cases h
+
+theorem orderOKB_sound {tr : Tree} (h : orderOKB tr = true) : OrderOK tr := orderOKFB_sound tr _ _ h
+
+/-- a tree the union strategy accepts is one it can be applied to -/
+theorem applyUnionOk_of_treeOK {tr : Tree} {us : UStrat} (h : TreeOKUnion tr us) : applyUnionOk tr us = true := by
+  unfold applyUnionOk
+  simp only [Bool.or_eq_true, Bool.not_eq_true', Bool.and_eq_true, List.all_eq_true, decide_eq_true_eq]
+  exact Or.inr ⟨h.hashable, h.nodups⟩
 
 /-- the driver's `scope` bits: the tree-level hypotheses of the C14 theorems -/
 def scopeBits (S : Setup) : List (String × Bool) :=
   match S.strategy with
   | .auto => [("tree-ok", treeOKAutoB S.tr S.so S.uo), ("no-lit-loop", noLitLoopB S.tr S.uo)]
-  | .union us => [("tree-ok", treeOKUnionB S.tr us)]
+  | .union us => [("tree-ok", treeOKUnionB S.tr us), ("some-parent", S.tr.anyParent || S.tr.unionClasses == [0]),
+                  ("order-ok", orderOKB S.tr)]
 
 /-- all hypotheses of `C14_exact_subclass_partial` for one `(K, x)`, with the (concrete) hooks of `S` -/
 def caseInScope (S : Setup) (K : Nat) (x : Obj) : Bool :=
@@ -442,7 +595,8 @@ def caseInScope (S : Setup) (K : Nat) (x : Obj) : Bool :=
       | .union us =>
         treeOKUnionB S.tr us && (dlookup kvs (.str us.tagName)).isNone &&
         (S.forbid || S.H.st D (.dict (kvs ++ [(.str us.tagName, us.tag D)])) == S.H.st D (.dict kvs)) &&
-        !(S.forbid && S.tr.anyParent && decide ((S.tr.subclassesOf K).length ≤ 1))
+        !(S.forbid && S.tr.anyParent && decide ((S.tr.subclassesOf K).length ≤ 1)) &&
+        (S.tr.anyParent || S.tr.unionClasses == [0]) && orderOKB S.tr
     | _ => false
 
 end CattrsModel.Subclasses
